@@ -128,6 +128,8 @@ struct Run<'a> {
     /// (the run already carries a "missing" verdict), and if those items arrive after all the run
     /// is discarded as a tool error (the machine was too slow to judge absence)
     first_timeout: Option<Vec<String>>,
+    /// ephemeral frames seen by the server's follower, with the incarnation they were seen in
+    ephs: Vec<Value>,
     nact: usize,
     log: Vec<Value>,
 }
@@ -496,6 +498,21 @@ impl<'a> Run<'a> {
         }
     }
 
+    /// the ephemeral frames the server's all-contexts follower has seen since the last call
+    fn collect_eph(&mut self) {
+        if self.w.is_none() || self.died {
+            return;
+        }
+        let r = self.call(json!({"op": "eph_seen"}));
+        if let Some(fs) = r["frames"].as_array() {
+            for f in fs {
+                let mut f = f.clone();
+                f["inc"] = json!(self.inc);
+                self.ephs.push(f);
+            }
+        }
+    }
+
     fn do_append(&mut self, idx: usize, a: &Value) {
         if let Some((req, kind)) = self.request(a) {
             let resp = self.call(req);
@@ -521,6 +538,7 @@ impl<'a> Run<'a> {
                     false
                 };
                 let how = a["how"].as_str().unwrap_or("kill");
+                self.collect_eph();
                 if let Some(w) = self.w.take() {
                     if how == "exit" {
                         w.stop()
@@ -713,6 +731,7 @@ pub fn run_scenario(root: &Path, sc: &Value) -> Vec<Value> {
         died: false,
         overflow: false,
         first_timeout: None,
+        ephs: vec![],
         max_frames: sc["max_frames"].as_u64().unwrap_or(160) as usize,
         nact: 0,
         log: vec![],
@@ -748,6 +767,7 @@ pub fn run_scenario(root: &Path, sc: &Value) -> Vec<Value> {
         None => false,
     };
     // stop the server, then read the stream through a plain worker: nothing can move any more
+    run.collect_eph();
     let server_died = run.died;
     if let Some(w) = run.w.take() {
         w.kill();
@@ -835,7 +855,19 @@ pub fn run_scenario(root: &Path, sc: &Value) -> Vec<Value> {
             "c": if act > 0 && suf != "send" { norm_content(None, &ranks) } else { norm_content(content.as_deref(), &ranks) },
         }));
     }
-    evs.push(json!({"e": "quiescent", "s": sid, "timeout": timeout, "pending": pend, "waited_ms": waited as u64,
+    // ephemeral frames seen by the server's follower (never in the stream): context, topic, stamps as ranks
+    let ephs: Vec<Value> = run
+        .ephs
+        .iter()
+        .map(|f| {
+            let meta = f.get("meta").cloned().unwrap_or(Value::Null);
+            json!({"ctx": ctx_idx.get(f["context_id"].as_str().unwrap_or("")).cloned().unwrap_or(-1),
+                   "topic": f["topic"].as_str().unwrap_or(""), "inc": f["inc"],
+                   "hid": id_rank(&ranks, meta_str(&meta, "handler_id")), "cid": id_rank(&ranks, meta_str(&meta, "command_id")),
+                   "sid": id_rank(&ranks, meta_str(&meta, "source_id")), "fid": id_rank(&ranks, meta_str(&meta, "frame_id"))})
+        })
+        .collect();
+    evs.push(json!({"e": "quiescent", "s": sid, "timeout": timeout, "pending": pend, "waited_ms": waited as u64, "ephs": ephs,
                     "restarts": run.restarts, "nframes": frames.len(), "log": run.log, "overflow": run.overflow,
                     // what was owed at the first long timeout is no longer owed: later (shortened) waits of
                     // this run cannot be trusted - proc.py runs the scenario again with uniform long waits
